@@ -678,10 +678,33 @@ def enumerate_paths(cfg, start, stop, follow_exc=False, max_paths=4000,
                         _memo[k] = set(fs)
                 return _memo[k]
 
+    # module-private sentinels (NAME = object()): "x is NAME" is decided by
+    # the last binding of x on the path
+    SENT = '\0sent:'
+    sentinels = set()
+    mod_ = getattr(getattr(cfg, 'func', None), '_module', None)
+    if mod_ is not None:
+        for gname, gvals in mod_.globals.items():
+            if len(gvals) == 1 and isinstance(gvals[0], ast.Call) and \
+                    isinstance(gvals[0].func, ast.Name) and \
+                    gvals[0].func.id == 'object' and not gvals[0].args:
+                sentinels.add(gname)
+
     def feasible(edge, env):
         for (x, pol) in edge.facts:
             if isinstance(x, ast.Name) and x.id in env:
                 if bool(env[x.id]) != pol:
+                    return False
+            if sentinels and isinstance(x, ast.Compare) and len(
+                    x.ops) == 1 and isinstance(
+                        x.ops[0], (ast.Is, ast.IsNot)) and isinstance(
+                            x.left, ast.Name) and isinstance(
+                                x.comparators[0], ast.Name) and \
+                    x.comparators[0].id in sentinels and \
+                    SENT + x.left.id in env:
+                same = env[SENT + x.left.id] == x.comparators[0].id
+                val = same if isinstance(x.ops[0], ast.Is) else not same
+                if val != pol:
                     return False
         return True
 
@@ -690,6 +713,18 @@ def enumerate_paths(cfg, start, stop, follow_exc=False, max_paths=4000,
             raise AnalysisError(
                 f'more than {max_paths} paths in {cfg.name}')
         ca = _const_assign(n)
+        if sentinels and n.kind == 'stmt' and isinstance(
+                n.ast, ast.Assign) and len(n.ast.targets) == 1 and \
+                isinstance(n.ast.targets[0], ast.Name):
+            env = dict(env)
+            v_ = n.ast.value
+            env[SENT + n.ast.targets[0].id] = v_.id if isinstance(
+                v_, ast.Name) and v_.id in sentinels else None
+        elif sentinels and n.kind == 'stmt':
+            b_, _u = stmt_effects(n)
+            if any(SENT + x_ in env for x_ in b_):
+                env = {k: v for k, v in env.items()
+                       if not (k.startswith(SENT) and k[len(SENT):] in b_)}
         if ca:
             env = dict(env)
             env[ca[0]] = ca[1]
